@@ -200,6 +200,11 @@ def cases(tier):
     return [{"block": b, "nblocks": nb, "tier": tier} for b in range(nb)]
 
 
+def interp_cases(tier):
+    """interpreted pass (NUMBA_DISABLE_JIT=1): two sparse blocks of the face family"""
+    return [{"block": 1, "nblocks": 200, "tier": "quick"}, {"block": 7, "nblocks": 200, "tier": "quick"}]
+
+
 def selftest_case(tier):
     return {"block": 0, "nblocks": 64, "tier": "quick"}
 
